@@ -276,6 +276,28 @@ def c03(tier):
     build(("release",))
     c = Check("C03", tier, "exploration")
     c.explore(wf_corpus(tier, Q(tier, "six", "wide")), "wf", ["C03"], sample_cap=Q(tier, 150, 800))
+    # the command-line form of the property: check mode accepts what files mode wrote; a second run rewrites nothing
+    import cli, random
+    build(("cli",))
+    rnd = random.Random(SEED)
+    texts = seed_texts(Q(tier, 40, 400))
+    scen = []
+    for i, t in enumerate(texts):
+        label, codec, bom = cli.LEGACY[i % len(cli.LEGACY)]
+        w = cli.SAMPLE_WORDS.get(codec, "x")
+        body = t + f"\n// {w} {w} {w}\nSomeIdentifier := 'a {w} string' + AnotherIdentifier + '{w}' + YetAnotherOne;\n"
+        scen.append({"text": body, "option": label, "codec": codec, "bom": list(bom), "cfg": {"wrap_column": rnd.choice([40, 60, 80, 120])}})
+    res = cli.run_scenarios(cli.run_idem_scenario, scen)
+    ran = 0
+    for sc, (problems, skipped) in zip(scen, res):
+        if skipped:
+            continue
+        ran += 1
+        for p in problems:
+            c.add_violation({"prop": "C03", "clause": p["clause"], "detail": p["detail"], "case": {"label": "cli:" + sc["option"], "text": sc["text"]}})
+    c.evaluations += ran
+    c.nontrivial += ran
+    c.extra["cli_histories"] = ran
     return c.finish(
         rule="every seed program (both sides of each data test) and every grammar-generated program is formatted, and the result formatted again with the same configuration (6 / 18 configurations, the first one at the seed's own narrow width); "
              "Session.tla's `idem` relation (precondition b.in = a.out, same configuration) is re-decided by TLC on sampled and flagged histories. non-trivial = histories whose first call returned")
